@@ -133,15 +133,15 @@ func (s *MultipartReply) UnmarshalBinary(data []byte) error {
 		var repl util.Message
 		switch s.Type {
 		case MultipartType_Aggregate:
-			repl = new(AggregateStats)
+			repl = NewAggregateStats()
 		case MultipartType_Desc:
-			repl = new(DescStats)
+			repl = NewDescStats()
 		case MultipartType_Flow:
-			repl = new(FlowStats)
+			repl = NewFlowStats()
 		case MultipartType_Port:
-			repl = new(PortStats)
+			repl = NewPortStats()
 		case MultipartType_Table:
-			repl = new(TableStats)
+			repl = NewTableStats()
 		case MultipartType_Queue:
 			repl = new(QueueStats)
 		// FIXME: Support all types
@@ -925,6 +925,7 @@ func NewPortStatus() *PortStatus {
 	p := new(PortStatus)
 	p.Header = NewOfp13Header()
 	p.pad = make([]byte, 7)
+	p.Desc = *NewPhyPort()
 	return p
 }
 
@@ -958,7 +959,7 @@ func (s *PortStatus) UnmarshalBinary(data []byte) error {
 	s.Reason = data[n]
 	n += 1
 	copy(s.pad, data[n:])
-	n += len(s.pad)
+	n += 7
 
 	err = s.Desc.UnmarshalBinary(data[n:])
 	return err
